@@ -7,6 +7,7 @@
 //   stmtpos        line: hex(src)                             -> sl:el,sl:el,... (statement pair spans) | REJECT
 //   cpairs         line: hex(src)   first statement must be a bare list / record / do-block:
 //                  -> L|R|D <inner pairs> ## <commented items of the AST>   (see cpairs_line)
+//   dump-opinfo    (oneshot) precedence::operator_info for every binary operator
 //   dump-parens    (oneshot) needs_parens_in_binop for every (parent op, child op, side)
 //
 // Drivers.  `lib` mirrors blots-wasm/src/lib.rs::format_blots line by line (the wasm crate is a
@@ -17,12 +18,13 @@ use crate::show::*;
 use blots_core::ast::{BinaryOp, Expr, Spanned, SpannedExpr};
 use blots_core::ast_to_source::{expr_to_source, needs_parens_in_binop};
 use blots_core::expressions::pairs_to_expr_with_comments;
-use blots_core::formatter::{format_expr, join_statements_with_spacing};
+use blots_core::formatter::{format_expr, join_statements_with_spacing, protect_leading_minus};
 use blots_core::parser::{get_pairs, Rule};
 
 pub fn oneshot(sub: &str, _rest: &[String]) -> Option<String> {
     match sub {
         "dump-parens" => Some(dump_parens()),
+        "dump-opinfo" => Some(dump_opinfo()),
         _ => None,
     }
 }
@@ -43,7 +45,7 @@ fn text_of(h: &str) -> Option<String> {
 }
 
 // ------------------------------------------------------------------ drivers
-/// Mirror of blots-wasm/src/lib.rs::format_blots (lines 459-521).
+/// Mirror of blots-wasm/src/lib.rs::format_blots (as of f304333).
 pub fn format_lib(source: &str, max_columns: Option<usize>) -> Result<String, &'static str> {
     let pairs = get_pairs(source).map_err(|_| "REJECT")?;
     let mut formatted_statements = Vec::new();
@@ -67,6 +69,8 @@ pub fn format_lib(source: &str, max_columns: Option<usize>) -> Result<String, &'
                         format_expr(&expr, max_columns)
                     }
                 };
+                // A statement after another one must not start with `-` (it would continue it)
+                let formatted = protect_leading_minus(formatted, formatted_statements.is_empty());
                 let final_formatted = if let Some(eol_comment) = inner_pairs.next() {
                     if eol_comment.as_rule() == Rule::comment {
                         format!("{}  {}", formatted, eol_comment.as_str())
@@ -86,19 +90,27 @@ pub fn format_lib(source: &str, max_columns: Option<usize>) -> Result<String, &'
     Ok(join_statements_with_spacing(&formatted_statements))
 }
 
-/// Mirror of the --format loop in blots/src/main.rs (lines 246-295); width is always the default.
+/// Mirror of the --format loop in blots/src/main.rs (as of f304333); width is always the default.
+/// (Not used by the checks, which run the real binary; kept for quick experiments.)
 pub fn format_cli(source: &str) -> Result<String, &'static str> {
     let pairs = get_pairs(source).map_err(|_| "REJECT")?;
     let mut formatted_output = String::new();
     for pair in pairs {
         match pair.as_rule() {
             Rule::statement => {
-                if let Some(inner_pair) = pair.into_inner().next() {
+                let mut inner_pairs = pair.into_inner();
+                if let Some(inner_pair) = inner_pairs.next() {
+                    let eol_comment = match inner_pairs.next() {
+                        Some(p) if p.as_rule() == Rule::comment => format!("  {}", p.as_str()),
+                        _ => String::new(),
+                    };
                     match inner_pair.as_rule() {
                         Rule::expression => {
                             let expr =
                                 pairs_to_expr_with_comments(inner_pair.into_inner()).map_err(|_| "GLUEERR")?;
-                            formatted_output.push_str(&format_expr(&expr, None));
+                            let formatted = protect_leading_minus(format_expr(&expr, None), formatted_output.is_empty());
+                            formatted_output.push_str(&formatted);
+                            formatted_output.push_str(&eol_comment);
                             formatted_output.push('\n');
                         }
                         Rule::output_declaration => {
@@ -106,10 +118,12 @@ pub fn format_cli(source: &str) -> Result<String, &'static str> {
                                 pairs_to_expr_with_comments(inner_pair.into_inner()).map_err(|_| "GLUEERR")?;
                             let output_expr = Spanned::dummy(Expr::Output { expr: Box::new(inner_expr) });
                             formatted_output.push_str(&format_expr(&output_expr, None));
+                            formatted_output.push_str(&eol_comment);
                             formatted_output.push('\n');
                         }
                         Rule::comment => {
                             formatted_output.push_str(inner_pair.as_str());
+                            formatted_output.push_str(&eol_comment);
                             formatted_output.push('\n');
                         }
                         _ => {}
@@ -437,6 +451,18 @@ const ALL_OPS: [BinaryOp; 26] = [
     BinaryOp::Where,
     BinaryOp::Coalesce,
 ];
+
+/// operator_info for every binary operator, in the order of coq/Formatter.v::binop_index:
+/// name TAB precedence TAB L|R
+fn dump_opinfo() -> String {
+    use blots_core::precedence::{operator_info, Assoc};
+    let mut s = String::new();
+    for p in ALL_OPS.iter() {
+        let (prec, assoc) = operator_info(p);
+        s.push_str(&format!("{}\t{}\t{}\n", binop_name(p), prec, if assoc == Assoc::Right { "R" } else { "L" }));
+    }
+    s
+}
 
 /// Representative children of every non-binary constructor, in the order of coq/Ast.v::expr
 /// (ENum EStr EBool ENull EId EInRef EBuiltin EList ERec ELam ECond EDo EAssign EOutput ECall
